@@ -15,8 +15,8 @@ extern "C"
     uint32_t vp_u32(void);
     uint64_t vp_u64(void);
     void vp_assume(bool c);
-    void vp_assert(bool c, const char* label);  // label must be a string literal
-    void vp_reach(const char* label);           // vacuity guard: the solver must find an execution reaching this point
+    __attribute__((nomerge)) void vp_assert(bool c, const char* label);  // label must be a string literal; nomerge keeps one call per label
+    __attribute__((nomerge)) void vp_reach(const char* label);           // vacuity guard: the solver must find an execution reaching this point
     void vp_set_fill(int pattern);              // native replay only: fill pattern of fresh heap memory (C20)
     void vp_note(const char* label, uint64_t v);  // native replay only: print an observed value
 }
